@@ -701,6 +701,7 @@ func (s *c04Sim) permit(t *rapid.T, p *c04Pod) {
 		// what Coscheduling.Permit does on Success
 		s.allowed, s.rejected = nil, nil
 		s.mgr.AllowGangGroup(p.schedObj, s.h, Name)
+		s.mgr.SucceedGangScheduling() // ends the scheduling round of the gang group, if one is open (no-op otherwise)
 		s.logf("allowGangGroup(%s) -> allowed %v", p.name, s.allowed)
 		for _, q := range s.pods {
 			// the statement only says when a pod MAY be released, not that all are: counted, not asserted
